@@ -446,7 +446,8 @@ where
 
                 if self.offset_table_next {
                     // offset table
-                    let mut offset_table = Vec::with_capacity(len);
+                    // (the declared length cannot be trusted for an up-front allocation)
+                    let mut offset_table = Vec::new();
 
                     self.offset_table_next = false;
 
@@ -461,7 +462,7 @@ where
                     )
                 } else {
                     // item value
-                    let mut value = Vec::with_capacity(len);
+                    let mut value = Vec::new();
 
                     // need to pop item delimiter on the next iteration
                     self.delimiter_check_pending = true;
